@@ -158,3 +158,33 @@ impl<'a> ast::Code<'a> {
     pub fn exprs(self) -> (r: VpIter<ast::Expr<'a>>) requires self.wf(), tree_wf(self.0)
         ensures forall|k: int| 0 <= k < r.rest().len() ==> (#[trigger] r.rest()[k]).wf() && is_child_of(r.rest()[k].node(), self.0) { unimplemented!() }
 }
+impl<'a> ast::Dict<'a> {
+    #[verifier::external_body]
+    pub fn items(self) -> (r: VpIter<ast::DictItem<'a>>) requires self.wf(), tree_wf(self.0)
+        ensures forall|k: int| 0 <= k < r.rest().len() ==> (#[trigger] r.rest()[k]).wf() && is_child_of(r.rest()[k].node(), self.0) { unimplemented!() }
+}
+impl<'a> ast::Array<'a> {
+    #[verifier::external_body]
+    pub fn items(self) -> (r: VpIter<ast::ArrayItem<'a>>) requires self.wf(), tree_wf(self.0)
+        ensures forall|k: int| 0 <= k < r.rest().len() ==> (#[trigger] r.rest()[k]).wf() && is_child_of(r.rest()[k].node(), self.0) { unimplemented!() }
+}
+impl<'a> ast::Destructuring<'a> {
+    #[verifier::external_body]
+    pub fn items(self) -> (r: VpIter<ast::DestructuringItem<'a>>) requires self.wf(), tree_wf(self.0)
+        ensures forall|k: int| 0 <= k < r.rest().len() ==> (#[trigger] r.rest()[k]).wf() && is_child_of(r.rest()[k].node(), self.0) { unimplemented!() }
+}
+impl<'a> ast::Params<'a> {
+    #[verifier::external_body]
+    pub fn children(self) -> (r: VpIter<ast::Param<'a>>) requires self.wf(), tree_wf(self.0)
+        ensures forall|k: int| 0 <= k < r.rest().len() ==> (#[trigger] r.rest()[k]).wf() && is_child_of(r.rest()[k].node(), self.0) { unimplemented!() }
+}
+impl<'a> ast::Args<'a> {
+    #[verifier::external_body]
+    pub fn items(self) -> (r: VpIter<ast::Arg<'a>>) requires self.wf(), tree_wf(self.0)
+        ensures forall|k: int| 0 <= k < r.rest().len() ==> (#[trigger] r.rest()[k]).wf() && is_child_of(r.rest()[k].node(), self.0) { unimplemented!() }
+}
+/// rule R9: `v.extend(iter)` for a `VpIter`
+#[verifier::external_body]
+pub fn vp_extend<T>(dst: &mut Vec<T>, src: VpIter<T>)
+    ensures final(dst)@ == old(dst)@ + src.rest(),
+{ unimplemented!() }
